@@ -1,5 +1,5 @@
 """C03 — integer sum/dot/squared-norm/squared-Euclidean are exact modulo 2^bits."""
-from checks import exprun, symrun
+from checks import exprun, saferun, symrun
 
 LEVEL = "proof"
 OPS = ["generic_sum", "generic_dot_product", "generic_squared_norm", "generic_euclidean"]
@@ -7,6 +7,7 @@ INTS = ["i8", "i16", "i32", "i64", "u8", "u16", "u32", "u64"]
 
 
 def run(ctx):
+    facts = ctx.translate(steps=("tables", "dispatch"))
     ctx.trusted += ["Coq 8.16.1 kernel", "hand models Model/Kernels.v, Model/Regs.v (tied by correspondences A and C)",
                     "Model/Prim.v (meaning of wrapping_* primitives)", "harness/cfh, OCaml driver, extraction (ExtrOcamlBasic only)"]
     ctx.assumptions += ["intrinsic semantics in Model/Regs.v are ours (validated by correspondence C, bit for bit)"]
@@ -22,3 +23,13 @@ def run(ctx):
                         classes=("random", "boundary", "small"),
                         lens_fn=exprun.full_lens if thorough else exprun.quick_lens,
                         places=("R", "L", "3") if thorough else ("R",))
+    # the safe API under dispatch masks (every back end the host can reach; the property's "safe API under each mask"): the
+    # regenerated model of the wrapper AND the specification of the operation the routine's name announces
+    entries = [(i, s) for i, s in enumerate(facts.get("safe_entries", []))
+               if s["ty"] in INTS and s["any"].split("_", 2)[2] in ("sum", "dot", "squared_norm", "squared_euclidean")]
+    lens = [0, 3, 17, 65] if not thorough else [0, 1, 3, 8, 17, 33, 65, 130]
+    for config, masks in ((("stable", [0, 2, 6]), ("nightly", [0])) if not thorough else
+                          (("stable", [0, 2, 4, 6]), ("debug", [0, 6]), ("nightly", [0, 1, 3, 7]))):
+        cases, meta = saferun.gen_safe_cases(ctx, facts, config, entries, lens, [(0, 0, 0, 0)], masks, seed_tag=33,
+                                             cls="boundary" if thorough else "random")
+        saferun.compare_safe(ctx, config, cases, meta, "D:safe-int-reductions", spec_pid="C03")
